@@ -333,6 +333,14 @@ func runC07(c *Ctx) {
 				kind := []int{nFSub, nFClone}[(i1+ci)%2]
 				r := &fsubRun{seed: c.Seed + int64(runs), kind: kind, init: f1, initial: cont, zeroVer: (i1+2*i2+ci)%3 == 0,
 					ops: []fop{{kind: 1, f: rebuild(f2)}, {kind: 1, f: f3}, {kind: 1, f: rebuild(f3)}}}
+				if (i1+i2+ci)%2 == 0 {
+					// the parent changes after a Refilter too: whatever the Refilter did or
+					// did not emit, it is the NEW filter that judges what comes afterwards
+					// (both keys go through every label, then one disappears)
+					r.ops = []fop{{kind: 1, f: rebuild(f2)},
+						{kind: 2, ns: 1, nm: 1, lab: 1}, {kind: 2, ns: 1, nm: 2, lab: 2}, {kind: 2, ns: 1, nm: 1, lab: 2}, {kind: 2, ns: 1, nm: 2, lab: 1},
+						{kind: 1, f: f3}, {kind: 2, ns: 1, nm: 1, lab: 0}, {kind: 2, ns: 1, nm: 2, del: true}, {kind: 2, ns: 1, nm: 2, lab: 2}, {kind: 1, f: rebuild(f3)}}
+				}
 				runFsub(c, r)
 				runs++
 				what := fmt.Sprintf("filters %d -> %d -> %d, parent content %d", i1, i2, (i1+i2+1)%len(fam), ci)
@@ -387,7 +395,7 @@ func runC07(c *Ctx) {
 			}
 		}
 	}
-	c.Rep.Rule = "ready filtered subscriptions / filtered clones below a real (ready, quiet) controller through the public API with barriers: every ordered pair of a 9-member filter family (accept-all, accept-none, two overlapping label filters, a negation, a disjunction, a non-comparable FN, two conjunctions differing only in an FN child), each rebuilt so that Equals is exercised on distinct values, then a third Refilter (back to the first filter or another member) and a repeated one; x all parent contents over 2 keys x {absent, unlabelled, label a, label b} (quick: a quarter of the triples; in a third of them the first object carries resource version 0). Plus: for-filter nodes taken through first filter / another / back to accept-none / first again, and immediate nodes refiltered before their (gated) parent is ready and then back to the constructor's filter. Per Refilter: events delivered between barriers and cache vs the extracted fs_step model (Delete exactly for cached objects the new filter rejects, Create exactly for parent objects newly accepted, nothing for an equal filter), Ready, filtered parent content. Non-trivial = scenario in which some Refilter emitted events."
+	c.Rep.Rule = "ready filtered subscriptions / filtered clones below a real (ready, quiet) controller through the public API with barriers: every ordered pair of a 9-member filter family (accept-all, accept-none, two overlapping label filters, a negation, a disjunction, a non-comparable FN, two conjunctions differing only in an FN child), each rebuilt so that Equals is exercised on distinct values, then a third Refilter (back to the first filter or another member) and a repeated one, in every second triple with parent changes after each Refilter (both keys through every label, a delete, a re-create); x all parent contents over 2 keys x {absent, unlabelled, label a, label b} (quick: a quarter of the triples; in a third of them the first object carries resource version 0). Plus: for-filter nodes taken through first filter / another / back to accept-none / first again, and immediate nodes refiltered before their (gated) parent is ready and then back to the constructor's filter. Per Refilter: events delivered between barriers and cache vs the extracted fs_step model (Delete exactly for cached objects the new filter rejects, Create exactly for parent objects newly accepted, nothing for an equal filter), Ready, filtered parent content. Non-trivial = scenario in which some Refilter emitted events."
 	c.Rep.Stats["runs"] = runs
 }
 
